@@ -725,6 +725,9 @@ func recordGeneric(rep *vh.Report, h *gHist, sampleEvery int) {
 		rep.Count("generic_merged_calls_with_nil_value", st.merged)
 	}
 	rep.Count("generic_callers_confirmed_joined_by_goroutine_dump", st.parked)
+	reused, immediate := keyReuse(h)
+	rep.Count(p+"key_reused_after_completion_while_another_key_in_flight", reused)
+	rep.Count(p+"key_reused_immediately_after_completion_while_another_key_in_flight", immediate)
 	if h.Mode == "stress" {
 		rep.Count(fmt.Sprintf("generic_stress_histories_gomaxprocs_%d", h.Procs), 1)
 	}
@@ -907,6 +910,7 @@ type wHist struct {
 	nextID int64
 	mu     sync.Mutex
 	hold   chan struct{}
+	free   map[string]bool // methods whose executions are not held (set before the first call; read-only afterwards)
 }
 
 func (h *wHist) tick() int64 { return atomic.AddInt64(&h.clock, 1) }
@@ -919,7 +923,9 @@ func (h *wHist) begin(method, subject, tag string) *wExec {
 	h.mu.Lock()
 	h.Execs = append(h.Execs, e)
 	h.mu.Unlock()
-	<-h.hold
+	if !h.free[method] {
+		<-h.hold
+	}
 	return e
 }
 
@@ -2233,7 +2239,7 @@ func runSlowSlice(rep *vh.Report, env vh.Env) {
 func TestProp(t *testing.T) {
 	env := vh.GetEnv()
 	rep := vh.NewReport("C16", "exploration")
-	rep.Rule("generic: histories of N in 2..16 callers over K in 1..3 keys of singleflight.Group.Do; steered (per key a plan of waves: leader held inside fn until the wave's followers have recorded their call stamp, then released; next wave after all returned or immediately; error waves) and unsteered stress (GOMAXPROCS 2/4/16, spinner goroutines, 1..5 calls per goroutine); every execution has a unique id and [start,end] stamps, every caller [call,return] stamps; distinct = observed interleaving signature (mode + per key the sequence of executions with the number of callers that received each and its error flag). wrappers: per coalesced method of both services, scenarios same-subject (held leader, followers, late-comers; each scripted outcome) / different-subject probes / same string on another endpoint against a scripted inner provider; distinct = service|class|probe|outcomes|calls|executions|merged. e2e: N concurrent browser requests with one cookie whose validation/refresh is due against a fake authenticator holding the answer; distinct = kind|N|authenticator calls|served. adversarial: per coalesced method (wrappers) and for Group.Do (generic) overlapping call pairs on two DIFFERENT subjects / keys that collide under a cheap key derivation (32-bit hash sums found by birthday search at run time, truncation, normalisation, anagram); same descriptors as the wrapper / generic streams with the relation as probe. crowded: K in {0..2048 quick, ..65536 thorough} other keys parked inside their fn, then a held leader and 2-6 followers on a fresh key; executions of that key must not overlap, followers confirmed parked in Do get execution 1, the leader is told their number")
+	rep.Rule("generic: histories of N in 2..16 callers over K in 1..3 keys of singleflight.Group.Do; steered (per key a plan of waves: leader held inside fn until the wave's followers have recorded their call stamp, then released; next wave after all returned or immediately; error waves) and unsteered stress (GOMAXPROCS 2/4/16, spinner goroutines, 1..5 calls per goroutine); every execution has a unique id and [start,end] stamps, every caller [call,return] stamps; distinct = observed interleaving signature (mode + per key the sequence of executions with the number of callers that received each and its error flag). wrappers: per coalesced method of both services, scenarios same-subject (held leader, followers, late-comers; each scripted outcome) / different-subject probes / same string on another endpoint against a scripted inner provider; distinct = service|class|probe|outcomes|calls|executions|merged. e2e: N concurrent browser requests with one cookie whose validation/refresh is due against a fake authenticator holding the answer; distinct = kind|N|authenticator calls|served. adversarial: per coalesced method (wrappers) and for Group.Do (generic) overlapping call pairs on two DIFFERENT subjects / keys that collide under a cheap key derivation (32-bit hash sums found by birthday search at run time, truncation, normalisation, anagram); same descriptors as the wrapper / generic streams with the relation as probe. crowded: K in {0..2048 quick, ..65536 thorough} other keys parked inside their fn, then a held leader and 2-6 followers on a fresh key; executions of that key must not overlap, followers confirmed parked in Do get execution 1, the leader is told their number. cross-method: per ordered pair of coalesced methods of one service and outcome of the second, a held leader of the first, the second completing meanwhile on the same session, followers, release, late calls; descriptor as for the wrapper stream")
 	rep.Assume("stamps come from one atomic counter per history: 'A returned before B called' is decided by stamp order (sound: the stamps are taken after Do returned / before Do is called)")
 	rep.Assume("followers are 'very likely' parked in Do when the leader is released (call stamp recorded + yields + a 20-300us pause); a follower that was not parked executes afresh, which the oracle accepts; the number of merged calls is measured and has a floor")
 	rep.Assume("the inner providers are scripted fakes that mutate the session they are handed the way SSOProvider / OktaProvider do; the middlewares and singleflight are the shipped code")
@@ -2244,6 +2250,8 @@ func TestProp(t *testing.T) {
 
 	rep.Assume("adversarial subjects (streams c16-adversarial-wrapper for every coalesced method of both services through the real middleware, c16-adversarial-generic for Group.Do): two DIFFERENT subjects / keys overlap (the first is held inside the provider while the second arrives) and are answered differently by the scripted provider; the pairs (a) have equal sums under FNV-1a/32, FNV-1/32, CRC-32 IEEE and Castagnoli, Adler-32, the 31-multiplier string hash, the byte sum and the byte xor - found at run time per (seed) by a birthday search over 400000 16-character candidates per function (for FNV also per prefix: bare subject, quoted subject, '<endpoint>/' in front of either; the other functions' equal-length collisions hold inside any common prefix and suffix), placed in a token 'ya29.a0AfH6SM<x>', an e-mail '<x>@corp.test' or a group name 'team-<x>'; (b) agree in exactly their first / last 8, 16, 32 bytes; (c) are equal after lower-casing, trimming white space, URL-unescaping, dropping non-alphanumerics; (d) are anagrams. All of them are different strings, i.e. different subjects: none is a don't-care. How a pair was chosen plays no part in the verdict (call log: both subjects reach the provider; answer; session updates carry the marks of an execution for the caller's own subject). Only pairs whose two executions were observed in flight together count towards the floors")
 	rep.Assume("out of reach: a coalescing key derived through a 64-bit or cryptographic hash, a seeded hash (hash/maphash), or a 32-bit FNV over a serialisation of (e-mail, groups) / a composite key that does not start with one of the prefixes searched - collisions for those cannot be produced within the budget")
+
+	rep.Assume("cross-method histories (stream c16-cross-method, every ordered pair M1 != M2 of the coalesced methods of one service, every scripted outcome of M2, through the real middleware): all calls are about ONE session (same access token, refresh token - in a third of the histories the same string as the access token -, e-mail and group list; every caller owns its copy). M1's leader is held inside the scripted provider; M2 (once, twice, or followed by every other method once) runs to completion meanwhile (only M1's executions are held); then 1-3 M1 followers arrive (joins confirmed by goroutine dump), release, 1-2 late M1 calls one after the other, sometimes M2 once more. Verdict: the unchanged wrapper oracle; probe = meanwhile-<M2>=<outcome>. Only histories in which every M2 execution lies inside the leader's execution, a follower was confirmed joined and a late call executed afresh count towards the per-(service, M1, M2) floors. Generic group: Group has only Do on the pinned tree; the steered histories are measured for keys re-used after completion while another key's call is in flight (floor)")
 
 	replaying := env.Replay != ""
 	t0 := time.Now()
@@ -2371,6 +2379,10 @@ func TestProp(t *testing.T) {
 	}
 	rep.Extra("wall_through_adversarial_s", time.Since(t0).Seconds())
 
+	// ---- (B'') cross-method histories on one subject
+	runCrossStream(rep, env)
+	rep.Extra("wall_through_cross_method_s", time.Since(t0).Seconds())
+
 	// ---- (C) e2e
 	if only, skip := env.Only("c16-e2e"); !skip {
 		ps, err := sut.NewProxyStack(sut.ProxyOpts{Upstreams: []sut.UpstreamSpec{{Service: "c16svc", From: e2eHost, AllowedGroups: []string{"g1", "g2"}},
@@ -2407,6 +2419,7 @@ func TestProp(t *testing.T) {
 		rep.Floor("slow_leader_wrapper_merged_calls", env.Pick(16, 64))
 		rep.Floor("slow_leader_wrapper_latecomer_fresh_executions", env.Pick(16, 64))
 		adversarialFloors(rep, env)
+		crossFloors(rep, env)
 	}
 	if st := rep.Finish(); st == "violated" {
 		t.Fatalf("C16 violated")
